@@ -245,6 +245,9 @@ def _seq(n, f, length, label):
     return SymSeq(length, lambda i: SV(f(n.t, i), "name"), label=label, facts=lambda i: [IS_L(f(n.t, i))])
 
 
+LINK_IS_ISOLATED = z3.Function("link_is_isolated", NameSort, z3.BoolSort())
+
+
 def _mb_case(builder, demand_field, leak_status, isolated, existing):
     dictname = "mass_balance" if builder is constraint.mass_balance_constraint else "pdd_mass_balance"
     DEM = EXP_DEMAND if demand_field == "expected_demand" else DEMAND
@@ -260,6 +263,9 @@ def _mb_case(builder, demand_field, leak_status, isolated, existing):
         wn.nodes.append((n, node))
         wn.inlet[n.t.get_id()] = _seq(n, INL, nin, "inlet")
         wn.outlet[n.t.get_id()] = _seq(n, OUTL, nout, "outlet")
+        # an incident link is some link of the network with an arbitrary isolation flag of its own (code that looks at the links themselves runs
+        # against this view instead of leaving the stub)
+        wn.generic_link = lambda name: cx.obj(Pipe, _link_name=name, _is_isolated=SV(LINK_IS_ISOLATED(name.t), "bool"), _flow=None)
         m = mk_model(cx, existing=dictname if existing else None)
         upd = Updater()
         # definitional axioms of the prefix sums (spec functions)
